@@ -52,6 +52,15 @@ fn main() {
     if std::env::var("VX_VERBOSE").is_err() {
         std::panic::set_hook(Box::new(|_| {}));
     }
+    if prop == "WATCHDOG-TEST" {
+        // the hard deadline of a solver call: `cat` never prints the end marker, so the call must be cut off
+        let mut p = solver::Proc::spawn("cat", &["cat"]).expect("cat");
+        let t0 = std::time::Instant::now();
+        let r = p.run_deadline("(check-sat)", Some(1500));
+        let ms = t0.elapsed().as_millis();
+        println!("{}", serde_json::json!({"cut_off": r.is_err(), "after_ms": ms as u64}));
+        std::process::exit(if r.is_err() && ms < 4000 { 0 } else { 1 });
+    }
     if prop == "SELFTEST" {
         // differential self-test: run the shared scenarios on the stand-in (decisions follow the concrete shadow values)
         bls12_381::symex::begin(vec![], bls12_381::symex::DrawMode::Free, seed);
